@@ -130,7 +130,7 @@ def required_cells(tier):
         "pos:tri:offset": 2,
         "cutoff:hard": 5, "cutoff:exponential": 5, "cutoff:gaussian": 5,
         "variant:powerlaw": 5, "variant:custom-powerlaw": 3,
-        "variant:custom-j": 3,
+        "variant:custom-j": 3, "variant:custom-j-gapped": 2,
         "zeta<1": 3, "zeta=1": 2, "zeta>1": 3, "zeta<1&T>0": 2,
         "eps:default": 3, "eps:explicit": 3,
         "cells_vs_eta": 100, "cells_vs_own": 30, "tiling": 10,
@@ -299,8 +299,19 @@ def _nquad(p):
     return 2 if p["cutoff_type"] == "hard" else 4
 
 
-def _custom_j(p):
+def _custom_j(p, gapped=False):
     a, z, wc = p["alpha"], p["zeta"], p["cutoff"]
+    if gapped:
+        # a spectral gap: exactly zero up to 0.55 wc (in particular at
+        # wc/2, the midpoint of the first quadrature interval), switched on
+        # smoothly (C-infinity) above it
+        w0, w1 = 0.55 * wc, 0.3 * wc
+
+        def jgap(w):
+            if w <= w0:
+                return 0.0
+            return 2.0 * a * w ** z * wc ** (1 - z) * math.exp(-w1 / (w - w0))
+        return jgap
     return lambda w: 2.0 * a * w ** z * wc ** (1 - z) \
         * (1.0 + 0.5 * w / (w + wc))
 
@@ -338,13 +349,16 @@ def _gen_sd(case):
     return rng, p, variant, tclass, dt, eps
 
 
-def _make_obj(p, variant):
+def _make_obj(p, variant, gapped=False):
     import oqupy
     if variant == "powerlaw":
         return gen.make_power_law(p)
     if variant == "custom-powerlaw":
         return gen.make_custom_sd(p)
-    return oqupy.CustomSD(_custom_j(p), cutoff=p["cutoff"],
+    jf = _custom_j(p, gapped)
+    if gapped:
+        jf = np.vectorize(jf)
+    return oqupy.CustomSD(jf, cutoff=p["cutoff"],
                           cutoff_type=p["cutoff_type"],
                           temperature=p["temperature"])
 
@@ -597,9 +611,10 @@ def run_sd(case):
     J = Judge()
     wc, temp = p["cutoff"], p["temperature"]
     pref = dict(p)
+    gapped = variant == "custom-j" and (i // 8) % 2 == 1
     if variant == "custom-j":
-        pref["j"] = _custom_j(p)
-    obj = _make_obj(p, variant)
+        pref["j"] = _custom_j(p, gapped)
+    obj = _make_obj(p, variant, gapped)
     twin = gen.make_power_law(p) if variant == "custom-powerlaw" else None
     epskw = {} if eps is None else {"epsrel": eps}
     eps_eff = DEFAULT_EPSREL if eps is None else eps
@@ -634,6 +649,8 @@ def run_sd(case):
     cells_cov = ["cutoff:" + p["cutoff_type"], "T:" + tclass,
                  "variant:" + variant,
                  "eps:default" if eps is None else "eps:explicit"]
+    if gapped:
+        cells_cov.append("variant:custom-j-gapped")
     zclass = "zeta<1" if p["zeta"] < 1 else ("zeta=1" if p["zeta"] == 1
                                              else "zeta>1")
     cells_cov.append(zclass)
